@@ -37,9 +37,9 @@ func compareCore(s g.Simulator, ref []mars.Insn, m int, full bool, addrs []int) 
 }
 
 func runC01(c *Ctx) {
-	n := int64(numForms) * 4
+	n := int64(numForms) * 32
 	if c.Thorough() {
-		n = int64(numForms) * 64
+		n = int64(numForms) * 1024
 	}
 	if c.Race {
 		n /= 4
